@@ -1878,8 +1878,43 @@ func main() {
 		var rf struct {
 			Signature string `json:"signature"`
 			Replay    struct {
-				Hex string `json:"hex"`
+				Hex       string   `json:"hex"`
+				BodiesHex []string `json:"bodies_hex"`
+				Trigger   string   `json:"trigger"`
 			} `json:"replay"`
+		}
+		if err := json.Unmarshal(raw, &rf); err == nil && len(rf.Replay.BodiesHex) > 0 {
+			// a sequence-phase case: the recorded bodies written into one ArrowBuffer per mode, then the recorded trigger
+			var bodies [][]byte
+			for _, h := range rf.Replay.BodiesHex {
+				b, err := hex.DecodeString(h)
+				if err != nil {
+					ev.Unbound("replay.bodies_hex: " + err.Error())
+				}
+				bodies = append(bodies, b)
+			}
+			trig := seqTrig{}
+			for _, t := range seqTrigs {
+				if t.name == rf.Replay.Trigger {
+					trig = t
+				}
+			}
+			if trig.name == "" {
+				ev.Unbound("replay.trigger unknown: " + rf.Replay.Trigger)
+			}
+			w := newWorker()
+			v := w.seqEvalBodies(bodies, trig)
+			var ds []string
+			for _, b := range bodies {
+				ds = append(ds, diagBody(b))
+			}
+			out, _ := json.MarshalIndent(map[string]any{"payloads": ds, "trigger": trig.name, "difference": v.kind, "typed": seqObsJSON(v.t), "generic": seqObsJSON(v.g)}, "", " ")
+			fmt.Println(string(out))
+			if v.kind != "" {
+				run.Violate(v.kind+"|"+trig.name+"|"+strings.Join(rf.Replay.BodiesHex, ">"), "replayed sequence still differs", rf.Replay)
+			}
+			run.Coverage["evaluations"] = 1
+			run.Finish()
 		}
 		if err := json.Unmarshal(raw, &rf); err != nil || rf.Replay.Hex == "" {
 			ev.Unbound("replay file has no replay.hex")
@@ -1935,6 +1970,11 @@ func main() {
 			r += len(order)
 		}
 		order = append(order[r:], order[:r]...)
+	}
+	// development aid: VERIF_C02_PHASE=seq runs only the sequence phase (reported as not exhaustive)
+	phaseLimited := os.Getenv("VERIF_C02_PHASE") == "seq"
+	if phaseLimited {
+		order = order[:0]
 	}
 
 	var (
@@ -2129,10 +2169,6 @@ func main() {
 			"generic_error_classes_of_instances": c.gerrs, "instances_by_origin": c.hows})
 		classSummary = append(classSummary, map[string]any{"signature": s, "payload": diagBody(c.min), "raw_instances": c.instances})
 	}
-	for _, w := range workers {
-		w.buf.Close()
-	}
-
 	famNames := make([]string, 0, len(gen.fam))
 	for f := range gen.fam {
 		famNames = append(famNames, f)
@@ -2142,14 +2178,25 @@ func main() {
 	for _, f := range famNames {
 		famCounts[f] = gen.fam[f]
 	}
+	nBases, nFails := len(gen.bases), len(fails)
+	// the payload trees are no longer needed: drop them so the sequence phase (allocation-heavy: one Parquet writer
+	// per flush) does not pay for scanning them in every GC cycle
+	gen, order, fails = nil, nil, nil
+	kindMemo, finalMemo = nil, nil
+	runtime.GC()
+	seqComplete := seqPhase(run, quick, workers)
+	for _, w := range workers {
+		w.buf.Close()
+	}
 	run.Coverage["evaluations"] = evals
 	run.Coverage["distinct_nontrivial"] = typedHitsDistinct
 	run.Coverage["rule"] = "payload trees enumerated exhaustively per family (F1 value arrays len<=3 over one representative per msgpack encoding; F2 time arrays over unit-boundary values x encodings; " +
 		"F3 every sequence of top-level key/value pairs up to the bound incl. duplicates and non-string keys; F4 every sequence of <=3 column entries over names {time,v,\"\",_x} x {arrays, empty array, non-arrays}; " +
 		"F5 array-of-maps and batch up to 3 items; F6 every header/key width; F7 row format), hand-encoded; then for every distinct encoding <=40 B selected for mutation: every truncation, 4 trailing suffixes, " +
 		"every header replaced by a 32-bit 0xFFFFFFFF header, every single-byte substitution from {00,01,80,81,91,a1,c0,c1,c4,cb,d4,ff}. Each body decoded with typedEnabled on and off and written with the real ArrowBuffer.Write. " +
-		"distinct = distinct byte strings among the tree encodings; non-trivial = the typed fast path returned a TypedColumnarRecord for it (the two runs executed different code)"
-	run.Coverage["tree_payloads_distinct"] = len(gen.bases)
+		"distinct = distinct byte strings among the tree encodings; non-trivial = the typed fast path returned a TypedColumnarRecord for it (the two runs executed different code). " +
+		fmt.Sprint(run.Coverage["seq_rule"])
+	run.Coverage["tree_payloads_distinct"] = nBases
 	run.Coverage["tree_payloads_by_family"] = famCounts
 	run.Coverage["tree_evaluations"] = treeEvals
 	run.Coverage["mutation_bases"] = mutBases
@@ -2159,7 +2206,7 @@ func main() {
 	run.Coverage["stored_parquet_comparisons"] = atomic.LoadInt64(&deepEvals)
 	run.Coverage["outcomes"] = outcomes
 	run.Coverage["distinct_outcomes"] = len(outcomes)
-	run.Coverage["failing_inputs_before_minimisation"] = len(fails)
+	run.Coverage["failing_inputs_before_minimisation"] = nFails
 	run.Coverage["failing_inputs_not_minimised"] = notMin
 	run.Coverage["minimisation_evaluations"] = minEvals
 	run.Coverage["classes"] = classSummary
@@ -2167,15 +2214,16 @@ func main() {
 	run.Coverage["substitution_set"] = hex.EncodeToString(substitutions)
 	run.Coverage["max_mutated_len"] = maxMutLen
 	run.Coverage["workers"] = nw
-	run.Coverage["exhaustive"] = complete == 1
+	run.Coverage["exhaustive"] = complete == 1 && seqComplete && !phaseLimited
 	run.Assume("acceptance is judged at MessagePackDecoder.Decode + ArrowBuffer.Write (what the HTTP handler calls); measurement-name validation and RBAC in internal/api are functions of the decoded measurement, which is compared")
 	run.Assume("a time value within 24 h of the wall clock is taken to be a generated timestamp (every explicit time of the grammar is years away); generated values are compared only for 'all rows of a record share one value' and their partition hour is not compared")
 	run.Assume("values at null positions are not compared (they are not stored); NaN equals NaN; other floats compared bit-wise; rows of a stored Parquet file compared as a multiset")
 	run.Assume("decimal columns not configured (the handler disables the fast path when they are); WAL disabled - the raw payload handed to the WAL is compared instead; snappy compression, default sort keys")
 	run.Assume("oversized (0xFFFFFFFF) headers are generated for arrays, maps and strings on a small structural set of bases, one case at a time (each makes the generic decoder allocate its 1M-element cap); bin32/ext32 oversize headers are NOT generated because the msgpack fork allocates the claimed byte length up front (a 10-byte body with bin32 len 0xFFFFFFFF costs a 4 GiB allocation in either mode - a C04 matter, not a typed/generic difference); 16/32-bit array/map codes are not in the substitution set for the same cost reason")
+	run.Assume("sequence phase: one measurement, one database, sequential writes (no concurrency), <=3 payloads of 2 rows, two value columns; each flush trigger's real body runs on the harness goroutine: FlushAll and Close directly, the aged sweep as flushAgedBuffers after every recorded buffer start time was moved MaxBufferAge into the past (the background timer is kept from re-arming so it never runs the sweep itself), a size-triggered flush as flushRecordsAsync on the tasks the real write path queued while the single flush worker is parked in a storage write of an unrelated database; timer scheduling of periodicFlush and worker-pool concurrency are outside this check")
 	run.Assume("bodies longer than 40 B are not byte-mutated; arrays longer than 3, more than 3 columns / 4 top-level keys, nesting deeper than 2 are outside the enumeration")
 	fmt.Printf("C02: %d tree payloads (%d took the fast path), %d mutated bodies from %d bases, %d stored-Parquet comparisons, %d distinct outcomes, %d raw failures -> %d classes\n",
-		treeEvals, typedHitsDistinct, mutEvals, mutBases, atomic.LoadInt64(&deepEvals), len(outcomes), len(fails), len(classes))
+		treeEvals, typedHitsDistinct, mutEvals, mutBases, atomic.LoadInt64(&deepEvals), len(outcomes), nFails, len(classes))
 	if len(outcomes) < 3 {
 		fmt.Println("C02: VACUITY WARNING: fewer than 3 distinct outcomes")
 	}
